@@ -48,11 +48,48 @@ def cel_text(e) -> str:
         return f"gate({cel_text(e[1])})"
     if k == "lit":
         return "true" if e[1] else "false"
+    if k == "nest":                      # ["nest", shape, depth, bool-expression]
+        sh, d, a = e[1], e[2], cel_text(e[3])
+        if sh == "paren":
+            return "(" * d + a + ")" * d
+        if sh == "cond":
+            return "(true ? " * d + a + " : false)" * d
+        if sh == "not":
+            return "!" * (2 * d) + "(" + a + ")"
+        if sh == "call":
+            return "idf(" * d + a + ")" * d
+        raise ValueError(e)
+    if k == "addchain":                  # ["addchain", var, depth, n, gated]   v + 1 + 1 + … + 1 == n   (left-nested, depth = #ones)
+        v = f"gate({e[1]})" if e[4] else e[1]
+        return v + " + 1" * e[2] + f" == {e[3]}"
+    if k == "listnest":                  # ["listnest", var, depth, n, gated]   [[[v]]][0][0][0] == n
+        v = f"gate({e[1]})" if e[4] else e[1]
+        return "[" * e[2] + v + "]" * e[2] + "[0]" * e[2] + f" == {e[3]}"
     raise ValueError(e)
 
 
 def has_gate(e) -> bool:
+    if e[0] in ("addchain", "listnest"):
+        return bool(e[4])
     return e[0] == "gate" or any(isinstance(x, list) and has_gate(x) for x in e[1:])
+
+
+def expr_vars(e) -> List[str]:
+    """the variable names of a scenario expression"""
+    k = e[0]
+    if k in ("eq", "lt", "addeq", "addchain", "listnest"):
+        return [e[1]]
+    out: List[str] = []
+    for x in e[1:]:
+        if isinstance(x, list):
+            out += expr_vars(x)
+    return out
+
+
+#: deepest nesting each runner class handles alone at the recursion limit `Environment` sets (measured on the unchanged
+#: tree: interpreted / compiled); the generator uses 50-75 % of it, so every thread is well inside what works alone and
+#: any two in-progress evaluations together exceed what ONE evaluation can use
+NEST_MAX = {"paren": (67, 123), "cond": (69, 123), "not": (301, 98), "call": (67, 112), "addchain": (305, 197), "listnest": (50, 66)}
 
 
 def interp_tokens(e) -> List[str]:
@@ -76,6 +113,26 @@ def interp_tokens(e) -> List[str]:
         return ["host", "gate"] + interp_tokens(e[1])
     if k == "lit":
         return ["lit", "b:1" if e[1] else "b:0"]
+    if k == "nest":
+        sh, d, a = e[1], e[2], interp_tokens(e[3])
+        if sh == "paren":
+            return a
+        if sh == "not":
+            return ["not"] * (2 * d) + a
+        if sh == "call":
+            return ["host", "idf"] * d + a
+        if sh == "cond":
+            for _ in range(d):
+                a = ["cond", "catch", "lit", "b:1", "catch"] + a + ["catch", "lit", "b:0"]
+            return a
+        raise Untranslatable(str(e[:3]))
+    if k == "addchain":
+        a = ["host", "gate", "var", e[1]] if e[4] else ["var", e[1]]
+        for _ in range(e[2]):
+            a = ["bin", "add"] + a + ["lit", "i:1"]
+        return ["bin", "eq"] + a + ["lit", f"i:{e[3]}"]
+    if k == "listnest":
+        raise Untranslatable("list literals are outside the model's fragment")
     raise ValueError(e)
 
 
@@ -219,7 +276,7 @@ def build(th, gate=None):
     rc = celpy.CompiledRunner if th["runner"] == "C" else celpy.InterpretedRunner
     env = celpy.Environment(runner_class=rc)
     ast_ = env.compile(cel_text(th["expr"]))
-    return env.program(ast_, functions={"gate": gate or identity_gate})
+    return env.program(ast_, functions={"gate": gate or identity_gate, "idf": identity_gate})
 
 
 def bindings(th):
@@ -236,7 +293,7 @@ def solo(th) -> str:
 def solo_ops(th):
     """the thread's evaluation as a c05 history (run alone in a pristine process)"""
     return [["E", th["runner"], None, []], ["P", 0, {"src": cel_text(th["expr"])}],
-            ["G", 0, 0, {"form": "dict", "fns": [["gate", "ident", 0]]}], ["V", 0, [[k, ["i", v]] for k, v in th["binds"]]]]
+            ["G", 0, 0, {"form": "dict", "fns": [["gate", "ident", 0], ["idf", "ident", 0]]}], ["V", 0, [[k, ["i", v]] for k, v in th["binds"]]]]
 
 
 def solo_canon(obs) -> str:
@@ -249,6 +306,55 @@ def solo_canon(obs) -> str:
         k = re.search(r"no such member in mapping: '(\w+)'", r) or re.search(r"undeclared reference to '(\w+)'", r)
         return "err" + (":key:" + k.group(1) if k else "")
     return m
+
+
+def run_jobs(jobs, timeout, par=None):
+    """c05.run_jobs through `c16_worker` (same pool of children forked from a pristine `import celpy`; it also knows hold jobs)"""
+    import select
+    if not jobs:
+        return {}
+    par = par or max(2, min(12, (os.cpu_count() or 4) - 2))
+    cmd = [sys.executable, "-m", "verif.props.c16_worker", "--jobs", str(par)]
+    p = subprocess.Popen(cmd, stdin=subprocess.PIPE, stdout=subprocess.PIPE, stderr=subprocess.PIPE, env=dict(os.environ))
+
+    def feed():
+        try:
+            for j in jobs:
+                p.stdin.write((json.dumps(j) + "\n").encode())
+            p.stdin.close()
+        except Exception:
+            pass
+    threading.Thread(target=feed, daemon=True).start()
+    res: Dict[Any, Any] = {}
+    deadline = time.time() + timeout
+    err: List[bytes] = []
+    threading.Thread(target=lambda: err.append(p.stderr.read()), daemon=True).start()
+    buf = b""
+    fd = p.stdout.fileno()
+    while len(res) < len(jobs):
+        left = deadline - time.time()
+        if left <= 0:
+            p.kill()
+            raise subprocess.TimeoutExpired(cmd, timeout)
+        r, _, _ = select.select([fd], [], [], min(left, 5.0))
+        if not r:
+            continue
+        chunk = os.read(fd, 1 << 16)
+        if not chunk:
+            break
+        buf += chunk
+        while b"\n" in buf:
+            line, buf = buf.split(b"\n", 1)
+            if line.strip():
+                d = json.loads(line)
+                res[d.get("id")] = d
+    try:
+        p.wait(timeout=10)
+    except Exception:
+        p.kill()
+    if len(res) < len(jobs):
+        raise RuntimeError(f"worker pool lost {len(jobs) - len(res)} of {len(jobs)} jobs; stderr: {(b''.join(err))[-600:]!r}")
+    return res
 
 
 # ---- (1) deterministic replay with host-function gates -------------------------------------------
@@ -500,6 +606,93 @@ def gen_thread(rng, i, shared_names: bool, runner=None, gate=False):
     return {"runner": runner or rng.choice(["C", "C", "I"]), "expr": e, "binds": binds}
 
 
+# ---- (5) deep expressions and hold scenarios ----------------------------------------------------------------------
+
+NEST_SHAPES = ["paren", "paren", "cond", "not", "call", "addchain", "listnest"]
+
+
+def gen_depth(rng, shape, runner) -> int:
+    mx = NEST_MAX[shape][0 if runner == "I" else 1]
+    return max(2, int(mx * rng.uniform(0.5, 0.75)))
+
+
+def gen_deep_thread(rng, i, shared_names: bool, runner: str, gate_pos: str, shape=None):
+    """a thread whose expression is nested 50-75 % as deep as its runner class handles alone.
+    gate_pos: where the (holding) host function `gate` is called —
+      inside: at the bottom of the nesting (the thread is held while it is deep inside its evaluation),
+      before: before the deep part is evaluated (the deep part runs after the release),
+      after:  after the deep part,   none: no gate"""
+    vars_ = ["x", "y", "z"] if shared_names else [f"x{i}", f"y{i}"]
+    shape = shape or rng.choice(NEST_SHAPES)
+    d = gen_depth(rng, shape, runner)
+    base = gen_expr(rng, vars_, rng.randint(0, 1))
+    inside = gate_pos == "inside"
+    if shape in ("addchain", "listnest"):
+        v = rng.choice(vars_)
+        n = rng.choice([1, 2, 3]) + (d if shape == "addchain" else 0)
+        deep = [shape, v, d, n, inside]
+        r = rng.random()
+        if r < 0.4:
+            deep = ["and", deep, base]
+        elif r < 0.6:
+            deep = ["or", deep, base]
+    else:
+        inner = base
+        if inside:
+            inner = ["gate", base] if rng.random() < 0.5 else ["and", ["gate", ["lit", True]], base]
+        deep = ["nest", shape, d, inner]
+    if gate_pos == "before":
+        e = ["and", ["gate", ["lit", True]], deep] if rng.random() < 0.6 else ["or", ["gate", ["lit", False]], deep]
+    elif gate_pos == "after":
+        e = ["and", deep, ["gate", ["lit", True]]] if rng.random() < 0.6 else ["or", deep, ["gate", ["lit", False]]]
+    else:
+        e = deep
+    used = sorted(set(expr_vars(e)))
+    binds = [[v, rng.choice([1, 2, 3])] for v in used if rng.random() < 0.9]
+    return {"runner": runner, "expr": e, "binds": binds}
+
+
+def gen_hold_scenarios(rng, how_many: int):
+    """hold scenarios (run by c16_worker in a pristine process each).  The first two are structured — (a) a thread held
+    deep inside its evaluation while another deep evaluation runs from start to end, (b) an evaluation that enters while another
+    one is held, outlives it and only then does its deep part — with seeded shapes/depths/runners; the rest is random.
+    Every base scenario is emitted with both extreme release orders (nested and overlapping)."""
+    out = []
+    for k in range(how_many):
+        shared = rng.random() < 0.5
+        n = 2 if rng.random() < 0.7 else 3
+        if k == 0:
+            ths = [gen_deep_thread(rng, i, shared, "I", "inside") for i in range(n - 1)] + \
+                  [gen_deep_thread(rng, n - 1, shared, "I", rng.choice(["none", "inside", "before"]))]
+        elif k == 1:
+            first = gen_deep_thread(rng, 0, shared, rng.choice("IC"), rng.choice(["inside", "before"])) if rng.random() < 0.5 \
+                else gen_thread(rng, 0, shared, rng.choice("IC"), gate=True)
+            ths = [first, gen_deep_thread(rng, 1, shared, "I", "before")]
+        else:
+            ths = []
+            for i in range(n):
+                runner = "I" if rng.random() < 0.6 else "C"
+                if rng.random() < 0.75:
+                    pos = rng.choice(["inside", "inside", "before", "before", "after", "none"])
+                    ths.append(gen_deep_thread(rng, i, shared, runner, pos))
+                else:
+                    ths.append(gen_thread(rng, i, shared, runner, gate=rng.random() < 0.8))
+        held = [i for i, t in enumerate(ths) if has_gate(t["expr"])]
+        pre = rng.random() < 0.3
+        orders = [held, list(reversed(held))]
+        if len(held) > 2:
+            o = list(held)
+            rng.shuffle(o)
+            orders.append(o)
+        seen = set()
+        for o in orders:
+            if tuple(o) in seen:
+                continue
+            seen.add(tuple(o))
+            out.append({"kind": "hold", "threads": ths, "release": o, "prebuild": pre})
+    return out
+
+
 # ---- (4) step-ordered scenarios: create environment / compile / program / evaluate as separately ordered steps --------
 
 def steps_templates(rng):
@@ -633,8 +826,16 @@ class C16(Prop):
         self._alone: Dict[str, Any] = {}
         self._solo: Dict[str, str] = {}
         self._tier = "quick"
+        self._times: Dict[str, float] = {}
 
     def generate(self, rng, tier):
+        t0 = time.time()
+        try:
+            return self._generate(rng, tier)
+        finally:
+            self._times["generate+prefetch"] = self._times.get("generate+prefetch", 0.0) + time.time() - t0
+
+    def _generate(self, rng, tier):
         self._tier = tier
         quick = tier == "quick"
         cases = []
@@ -655,20 +856,46 @@ class C16(Prop):
         for _ in range(1 if quick else 6):
             ths = [gen_thread(rng, i, True) for i in range(4)]
             cases.append({"kind": "stress", "threads": ths, "reps": 300 if quick else 2000})
+        # deep expressions: held deep inside the evaluation (in-process gate replay) and free-running
+        for _ in range(2 if quick else 20):
+            shared = rng.random() < 0.6
+            r0 = "I" if rng.random() < 0.6 else "C"
+            ths = [gen_deep_thread(rng, 0, shared, r0, "inside")] + \
+                  [gen_deep_thread(rng, i, shared, "I" if rng.random() < 0.6 else "C", "none") if rng.random() < 0.7
+                   else gen_thread(rng, i, shared) for i in range(1, rng.choice([2, 2, 3]))]
+            cases.append({"kind": "gate", "threads": ths})
+        for _ in range(1 if quick else 4):
+            ths = [gen_deep_thread(rng, i, True, "I" if i < 2 or rng.random() < 0.5 else "C", "none") for i in range(3)]
+            cases.append({"kind": "stress", "threads": ths, "reps": 12 if quick else 100})
+        holds = gen_hold_scenarios(rng, 8 if quick else 80)
         steps = []
         for rep in range(1 if quick else 6):
             for name, ths in steps_templates(rng):
                 for o in step_orders(rng, [len(t) for t in ths], 9 if quick else 40):
                     steps.append({"kind": "steps", "family": name, "threads": ths, "order": o})
         from ..core import corpus_cases
-        self.prefetch_solo([c for c in corpus_cases(self.pid) + cases if c.get("kind") in ("gate", "explore", "stress")])
-        self.prefetch_steps([c for c in corpus_cases(self.pid) if c.get("kind") == "steps"] + steps, 300 if quick else 1500)
-        return cases + steps
+        corp = corpus_cases(self.pid)
+        self.prefetch_solo([c for c in corp + cases + holds if c.get("kind") in ("gate", "explore", "stress", "hold")])
+        self.prefetch_steps([c for c in corp if c.get("kind") == "steps"] + steps, 300 if quick else 1500)
+        self.prefetch_holds([c for c in corp if c.get("kind") == "hold"] + holds, 300 if quick else 1500)
+        return cases + holds + steps
 
     # ---- solo outcomes come from pristine processes, so that nothing an earlier scenario left behind in this process
     # ---- can hide (or fake) an interference
+    def prefetch_holds(self, cases, timeout):
+        todo = list({case_key(c): c for c in cases if case_key(c) not in self._cache}.values())
+        if not todo:
+            return
+        self.prefetch_solo(todo)
+        res = run_jobs([{"id": case_key(c), "hold": {"threads": c["threads"], "release": c.get("release", []),
+                                                     "prebuild": c.get("prebuild", False)}} for c in todo], timeout)
+        for c in todo:
+            d = res[case_key(c)]
+            r = d.get("hold")
+            out = " ".join(f"{i}={x}" for i, x in enumerate(r)) if r is not None else "HARNESS-CRASH " + str(d.get("crash"))
+            self._cache[case_key(c)] = {"out": out, "solo": [self.solo_of(t) for t in c["threads"]], "blocked": d.get("blocked", [])}
+
     def prefetch_solo(self, cases, timeout=300):
-        from .c05 import run_jobs
         jobs = {}
         for c in cases:
             for th in c["threads"]:
@@ -690,7 +917,6 @@ class C16(Prop):
 
     # ---- step-ordered scenarios run in pristine processes (pool of c05_worker) ---------------------------------
     def prefetch_steps(self, cases, timeout):
-        from .c05 import run_jobs
         todo = list({case_key(c): c for c in cases if case_key(c) not in self._cache}.values())
         jobs = [{"id": case_key(c), "threads": c["threads"], "order": c["order"]} for c in todo]
         alone: Dict[str, Any] = {}
@@ -715,11 +941,23 @@ class C16(Prop):
 
     # ---- implementation ---------------------------------------------------------------------------
     def impl(self, c):
+        t0 = time.time()
+        try:
+            return self._impl(c)
+        finally:
+            self._times[c.get("kind", "?")] = self._times.get(c.get("kind", "?"), 0.0) + time.time() - t0
+            if os.environ.get("VERIF_C16_TIMING"):
+                print("C16 timing:", {k: round(v, 1) for k, v in self._times.items()}, file=sys.stderr)
+
+    def _impl(self, c):
         k = case_key(c)
         if k in self._cache:
             return self._cache[k]["out"]
         if c["kind"] == "steps":
             self.prefetch_steps([c], 300)
+            return self._cache[k]["out"]
+        if c["kind"] == "hold":
+            self.prefetch_holds([c], 300)
             return self._cache[k]["out"]
         ths = c["threads"]
         info: Dict[str, Any] = {"solo": [self.solo_of(t) for t in ths]}
@@ -754,7 +992,10 @@ class C16(Prop):
             binds += [k, f"i:{v}"]
         head = [th["runner"], str(len(th["binds"]))] + binds
         if th["runner"] == "I":
-            return head + ["cell"] + interp_tokens(th["expr"])
+            try:
+                return head + ["cell"] + interp_tokens(th["expr"])
+            except Untranslatable:
+                return None
         try:
             p = build(th)
             return head + stmts_tokens(p.tp.source_text)
@@ -764,7 +1005,7 @@ class C16(Prop):
             return None
 
     def model_line(self, c):
-        if c["kind"] not in ("gate", "explore"):
+        if c["kind"] not in ("gate", "explore", "hold"):
             return None          # stress and step-ordered scenarios: oracle only
         parts = []
         for th in c["threads"]:
@@ -772,7 +1013,10 @@ class C16(Prop):
             if t is None:
                 return None
             parts.append(" ".join(t))
-        q = "G" if c["kind"] == "gate" else ("E 2" if len(c["threads"]) <= 2 else "E 1")
+        if c["kind"] == "hold":
+            q = "H " + (",".join(str(i) for i in c.get("release", [])) or "-")
+        else:
+            q = "G" if c["kind"] == "gate" else ("E 2" if len(c["threads"]) <= 2 else "E 1")
         return f"{self.policy_letter()} {q} " + " | ".join(parts)
 
     def model_expect(self, c, m):
@@ -820,7 +1064,10 @@ class C16(Prop):
                 i, o, e = info["bad"][0]
                 return f"free-running stress: thread {i} ({ths[i]['runner']}) evaluating `{cel_text(ths[i]['expr'])}` returned {o}, alone it returns {e}"
             return None
-        parts = dict(p.split("=", 1) for p in out.split(" ") if "=" in p)
+        if c["kind"] == "hold" and out.startswith("HARNESS-CRASH"):
+            return "the scenario crashed the worker: " + out
+        import re
+        parts = dict(p.split("=", 1) for p in re.split(r" (?=\d+=)", out) if "=" in p)
         for i, th in enumerate(ths):
             got = set(parts.get(str(i), "").split(","))
             want = info["solo"][i]
@@ -831,6 +1078,9 @@ class C16(Prop):
                         w = f"; schedule {json.dumps(info['witness'][f'{i}:{g}'])} of {info.get('points')} scheduling points"
                         break
                 how = "while thread 0 was held in its host function" if c["kind"] == "gate" else "under some interleaving"
+                if c["kind"] == "hold":
+                    how = (f"when the threads start in order, each held inside its host function `gate` in the middle of evaluate(), and are "
+                           f"released in the order {c.get('release')} (each running to its end before the next release; pristine process)")
                 return (f"thread {i} ({th['runner']} runner) evaluating `{cel_text(th['expr'])}` with {dict(th['binds'])} returned "
                         f"{sorted(got)} {how}; alone it returns {want}{w}")
         return None
